@@ -180,3 +180,6 @@ func TestC03EnumHist(t *testing.T) { EnumHist03(t) }
 func TestC04EnumHist(t *testing.T) { EnumHist04(t) }
 func TestC05EnumHist(t *testing.T) { EnumHist05(t) }
 func TestC19EnumHist(t *testing.T) { EnumHist19(t) }
+
+func TestC01Hist(t *testing.T)     { core.RunScaled(t, P01h, 1, 4) }
+func TestC01EnumHist(t *testing.T) { EnumHist01(t) }
